@@ -324,6 +324,7 @@ func scriptKey(s *Script) string {
 func classify(c *vt.C, s *Script) {
 	si := s.Shape.info()
 	c.Class(si.classes()...)
+	c.Class(marshClasses(s.Shape, s.Paths)...)
 	seen := map[string]bool{}
 	for _, sec := range s.S1 {
 		for _, cl := range secretClasses(sec) {
